@@ -13,6 +13,7 @@ import (
 	"verif/props/c04"
 	"verif/props/c05"
 	"verif/props/c06"
+	"verif/props/c07"
 	"verif/props/c08"
 	"verif/props/c18"
 )
@@ -24,6 +25,7 @@ var registry = map[string]func(fw.Config, *fw.Rec){
 	"C04": c04.Run,
 	"C05": c05.Run,
 	"C06": c06.Run,
+	"C07": c07.Run,
 	"C08": c08.Run,
 	"C18": c18.Run,
 }
